@@ -2,6 +2,7 @@ import Treepath.Proofs.DriveX
 import Treepath.Proofs.Drive
 import Treepath.Model.Has
 import Treepath.Proofs.MachineLemmas
+import Treepath.Proofs.LeafEvents
 /- C17 — tracing observes without interfering -/
 namespace Treepath.C17
 variable {α : Type}
@@ -57,5 +58,33 @@ theorem result_follows_its_attempt (s : Step J) (hc : s.cls = .single) (vi : Nat
     (h : singleOf J.view s n = some n') :
     stream [s] vi n = [.attempt n (vi+1) (some n') none, .result n'] := by
   simp [stream, hc, h]
+
+/-- **leaf events ↔ results**: "the events delivered outside filter evaluation that attempted the
+path's last step and succeeded correspond one-to-one, in order, to the results yielded" — in the
+specification's stream of any non-empty path (every step kind, recursion included) whose
+predicates keep to themselves (their own attempts are stamped with the candidate, they emit no
+results of the outer search: true of the has-family and of custom predicates that search from
+the Match they receive) -/
+theorem leaf_events_are_the_results (p : List (Step J)) (hne : p ≠ []) (hs : PredsStamped p) (hsil : PredsSilent p)
+    (n : MNode J) : leafHits p.length (stream p 0 n) = resultsOf (stream p 0 n) := by
+  simpa using leaf_hits_are_results p hne hs hsil 0 n
+
+/-- … and in the trace of the machine's complete run (predicates that do not raise) -/
+theorem machine_leaf_events_are_the_results (steps : Array (Step J)) (src : Src J) (hq : Quiet steps.toList)
+    (hne : steps.toList ≠ []) (hs : PredsStamped steps.toList) (hsil : PredsSilent steps.toList) :
+    ∃ k stD, (hrun J.view steps src (1 + k) freshIter).1 = stD ∧ stD.act = .done ∧
+      leafHits steps.size (hrun J.view steps src (1 + k) freshIter).2 =
+        resultsOf (hrun J.view steps src (1 + k) freshIter).2 := by
+  obtain ⟨k, stD, h1, h2⟩ := full_run steps src hq
+  refine ⟨k, stD, by rw [h1], h2, ?_⟩
+  rw [h1]
+  have := leaf_events_are_the_results steps.toList hne hs hsil src.rootNode
+  simpa using this
+
+/-- the statement is not vacuous, and it counts what it should: `$.a[*]` over two members -/
+example : leafHits 2 (stream [Step.key "a", .idxWc] 0 (.root (.obj [("a", .arr [.int 1, .int 2])]))) =
+    [.child (.child (.root (.obj [("a", .arr [.int 1, .int 2])])) (.key "a") (.arr [.int 1, .int 2])) (.idx 0) (.int 1),
+     .child (.child (.root (.obj [("a", .arr [.int 1, .int 2])])) (.key "a") (.arr [.int 1, .int 2])) (.idx 1) (.int 2)] := by
+  rfl
 
 end Treepath.C17
